@@ -405,6 +405,13 @@ var c07BugOps = []c07Op{
 	{"elem/string", true, docOp(func(d *opsDoc, i int, env *c07Env) bool { d.Ops[i] = json.RawMessage(`"op"`); return true })},
 	{"elem/array", true, docOp(func(d *opsDoc, i int, env *c07Env) bool { d.Ops[i] = json.RawMessage(`[]`); return true })},
 	{"elem/type-unknown", true, fieldOp("type", "99")},
+	{"elem/type-first-unassigned", true, fieldOp("type", "9")}, // one past the last known type (what a newer git-bug would send first)
+	{"elem/type-second-unassigned", true, fieldOp("type", "10")},
+	{"elem/type-255", true, fieldOp("type", "255")},
+	{"elem/type-256", true, fieldOp("type", "256")},
+	{"elem/type-beyond-int32", true, fieldOp("type", "4294967297")},
+	{"elem/type-max-int64", true, fieldOp("type", "9223372036854775807")},
+	{"elem/type-beyond-int64", true, fieldOp("type", "18446744073709551617")},
 	{"elem/type-zero", true, fieldOp("type", "0")},
 	{"elem/type-negative", true, fieldOp("type", "-3")},
 	{"elem/type-string", true, fieldOp("type", `"comment"`)},
